@@ -994,10 +994,13 @@ func (repo *Repository) consolidate(ctx context.Context) error {
 	return nil
 }
 
-// saveMainBranch saves all of the main branch back to the genesis header.
+// saveMainBranch saves the headers of the longest chain that are in memory to the main header set.
+// The longest branch is not the main branch when it has not been consolidated yet, so the headers
+// below it that are held by its parent branches are included.
 func (repo *Repository) saveMainBranch(ctx context.Context) error {
 	mainBranch := repo.longest
-	height := mainBranch.PrunedLowestHeight()
+	height := mainBranch.AvailableHeight()
+	lastHeight := mainBranch.Height()
 
 	file := height / headersPerFile
 	fileHeight := file * headersPerFile
@@ -1006,10 +1009,14 @@ func (repo *Repository) saveMainBranch(ctx context.Context) error {
 	currentFileByteOffset := ((height - fileHeight) * headerDataSerializeSize)
 	buf := &bytes.Buffer{}
 
-	if mainBranch.offset != 1 && currentFileByteOffset > 0 {
+	if currentFileByteOffset > 0 {
+		// The headers below the lowest header in memory were saved before they were pruned.
 		data, err := repo.store.Read(ctx, path)
 		if err != nil {
 			return errors.Wrapf(err, "read: %s", path)
+		}
+		if len(data) < currentFileByteOffset+1 {
+			return fmt.Errorf("Missing data %d: %s", len(data), path)
 		}
 		if data[0] != 1 {
 			return fmt.Errorf("Wrong version %d: %s", data[0], path)
@@ -1024,7 +1031,12 @@ func (repo *Repository) saveMainBranch(ctx context.Context) error {
 		}
 	}
 
-	for _, header := range mainBranch.headers {
+	for height <= lastHeight {
+		header := mainBranch.AtHeight(height)
+		if header == nil {
+			return fmt.Errorf("Missing header %d", height)
+		}
+
 		if err := header.Serialize(buf); err != nil {
 			return errors.Wrapf(err, "write header %d", height)
 		}
